@@ -578,11 +578,15 @@ Definition invalid_slave (e : entry) : option (string * string) :=
       else if negb (match get "host" e with JStr s => Nat.leb (String.length s) 256 | _ => false end) then Some ("invalid-field", "host")
       else if negb (match get "port" e with JNum q => q mod 4 =? 0 | _ => false end) then Some ("invalid-field", "port")
       else if negb (match get "path" e with JStr s => Nat.leb (String.length s) 256 | _ => false end) then Some ("invalid-field", "path")
-      else match lookup "admin_password_hash" e with
-           | Some (JStr s) => if Nat.eqb (String.length s) 64 then None else Some ("invalid-field", "admin_password_hash")
-           | Some _ => Some ("invalid-field", "admin_password_hash")
-           | None => None
-           end
+      else if negb (match lookup "admin_password" e with None => true | Some (JStr s) => Nat.leb (String.length s) 32 | Some _ => false end)
+           then Some ("invalid-field", "admin_password")
+      else if negb (match lookup "admin_password_hash" e with None => true | Some (JStr s) => Nat.eqb (String.length s) 64 | Some _ => false end)
+           then Some ("invalid-field", "admin_password_hash")
+      else if negb (match lookup "poll_interval" e with None => true | Some (JNum _) => true | Some _ => false end)
+           then Some ("invalid-field", "poll_interval")
+      else if negb (match lookup "listen_enabled" e with None => true | Some (JBool _) => true | Some _ => false end)
+           then Some ("invalid-field", "listen_enabled")
+      else None
   end.
 
 Definition same_endpoint (a b : entry) : bool :=
@@ -603,14 +607,17 @@ Definition slave_json (e : entry) : entry :=
    ("provisioning", match lookup "provisioning" e with Some (JList l) => JList l | _ => JList [] end);
    ("attrs", match lookup "attrs" e with Some (JObj o) => JObj o | _ => JObj [] end)].
 
-Fixpoint add_slaves (acc : list entry) (doc : list entry) (i : Z) : list entry * option (Z * string) :=
+(* the entries are added by concurrent tasks (asyncio.gather): a failing entry does not stop the others - they run in document
+   order, each to completion - and the first failure (in that order) is what the call answers *)
+Fixpoint add_slaves (acc : list entry) (doc : list entry) (i : Z) (err : option (Z * string)) : list entry * option (Z * string) :=
   match doc with
-  | [] => (acc, None)
+  | [] => (acc, err)
   | e :: r =>
-      if existsb (same_endpoint e) acc then (acc, Some (i, "duplicate-device"))
-      else if truthy (get "poll_interval" e) && truthy (get "listen_enabled" e) then (acc, Some (i, "listening-and-polling"))
-      else if is_null (get "admin_password" e) && is_null (get "admin_password_hash" e) then (acc, Some (i, "missing-field"))
-      else add_slaves (acc ++ [slave_json e]) r (i + 1)
+      let fail code := add_slaves acc r (i + 1) (match err with None => Some (i, code) | _ => err end) in
+      if existsb (same_endpoint e) acc then fail "duplicate-device"
+      else if truthy (get "poll_interval" e) && truthy (get "listen_enabled" e) then fail "listening-and-polling"
+      else if is_null (get "admin_password" e) && is_null (get "admin_password_hash" e) then fail "missing-field"
+      else add_slaves (acc ++ [slave_json e]) r (i + 1) err
   end.
 
 Fixpoint first_invalid_slave (doc : list entry) (i : Z) : option (Z * string * string) :=
@@ -625,7 +632,7 @@ Definition put_slave_devices (doc : list entry) (s : slaves) : slaves * option (
   let '(devs, err) :=
     match first_invalid_slave doc 0 with
     | Some (i, c, _) => ([], Some (i, c))
-    | None => add_slaves [] doc 0
+    | None => add_slaves [] doc 0 None
     end in
   ({| sl_devices := devs; sl_updating := true; sl_events := true |}, err).             (* finally *)
 
@@ -667,8 +674,30 @@ Fixpoint add_peripherals (known_driver : string -> bool) (auto_id : entry -> str
            end
   end.
 
+(* PUT_PERIPHERALS (the whole document is validated before anything is touched): driver a string, name / id null or an identifier *)
+Definition valid_opt_id (v : jv) : bool :=
+  match v with JNull => true | JStr s => valid_port_id s | _ => false end.
+Definition invalid_peripheral (e : entry) : option string :=
+  match lookup "driver" e with
+  | None => Some "missing-driver"
+  | Some (JStr _) => if valid_opt_id (get "name" e) && valid_opt_id (get "id" e) then None else Some "invalid-field"
+  | Some _ => Some "invalid-field"
+  end.
+
 Definition put_peripherals (known_driver : string -> bool) (auto_id : entry -> string) (doc : list entry)
   (ps : list peripheral) : list peripheral * option (Z * string) :=
-  add_peripherals known_driver auto_id (filter is_static ps) doc 0.
+  match first_some invalid_peripheral doc with
+  | Some c =>
+      (* a missing `driver` is reported by jsonschema at the path [index]: schema.validate makes `invalid-field field=<index>` of it,
+         and `invalid-request` when the index is 0 (falsy) *)
+      let code := if String.eqb c "missing-driver"
+                  then match doc with
+                       | e0 :: _ => match invalid_peripheral e0 with Some _ => "invalid-request" | None => "invalid-field" end
+                       | [] => "invalid-field"
+                       end
+                  else c in
+      (ps, Some (0, code))
+  | None => add_peripherals known_driver auto_id (filter is_static ps) doc 0
+  end.
 
 Definition get_peripherals (ps : list peripheral) : list entry := ps.
